@@ -402,9 +402,12 @@ type Contract struct {
 	Where    string
 	MayPanic bool
 	Props    map[string]bool
+	Like     string
+	LikePkg  string
 }
 
 type PredDef struct {
+	Pkg    string
 	Name   string
 	Recv   string // receiver param name ("" if none)
 	Params []string
@@ -423,6 +426,7 @@ type ContractDB struct {
 	Preds   map[string]*PredDef
 	Ghosts  map[string]*GhostField // key Owner + "." + Name
 	TypeInv map[string][]Clause   // type name -> invariant clauses over "this"
+	ParamInv map[string][]Clause  // type name -> clauses assumed for every parameter of that type, checked at call sites
 	Consts  map[string]SExpr
 	Lemmas  []*Lemma
 	Errors  []string
@@ -437,7 +441,7 @@ type Lemma struct {
 }
 
 func newContractDB() *ContractDB {
-	return &ContractDB{Funcs: map[string]*Contract{}, Preds: map[string]*PredDef{}, Ghosts: map[string]*GhostField{}, TypeInv: map[string][]Clause{}, Consts: map[string]SExpr{}}
+	return &ContractDB{Funcs: map[string]*Contract{}, Preds: map[string]*PredDef{}, Ghosts: map[string]*GhostField{}, TypeInv: map[string][]Clause{}, ParamInv: map[string][]Clause{}, Consts: map[string]SExpr{}}
 }
 
 var (
@@ -522,7 +526,14 @@ func (db *ContractDB) loadFile(path, pkgPrefix string) {
 					cur.Results = append(cur.Results, strings.TrimSpace(r))
 				}
 			}
-			for _, w := range strings.Fields(m[5]) {
+			words := strings.Fields(m[5])
+			for wi := 0; wi < len(words); wi++ {
+				w := words[wi]
+				if w == "like" && wi+1 < len(words) {
+					cur.Like = canonFuncKey(words[wi+1], pkgPrefix, "iface")
+					wi++
+					continue
+				}
 				cur.Props[w] = true
 			}
 			if kind == "extern" || cur.Props["trusted"] {
@@ -558,7 +569,7 @@ func (db *ContractDB) loadFile(path, pkgPrefix string) {
 				fail(l.n, "bad pred syntax")
 				continue
 			}
-			pd := &PredDef{Name: m[3], Src: m[5]}
+			pd := &PredDef{Name: m[3], Src: m[5], Pkg: pkgPrefix}
 			if m[1] != "" {
 				pd.Recv = m[1]
 				tn := strings.TrimPrefix(strings.TrimSpace(m[2]), "*")
@@ -605,6 +616,21 @@ func (db *ContractDB) loadFile(path, pkgPrefix string) {
 				continue
 			}
 			db.Ghosts[owner+"."+m[2]] = &GhostField{Owner: owner, Name: m[2], Sort: s}
+		case strings.HasPrefix(t, "paraminv "):
+			rest := strings.TrimSpace(t[9:])
+			i := strings.Index(rest, " ")
+			if i < 0 {
+				fail(l.n, "bad paraminv")
+				continue
+			}
+			tn := strings.TrimSpace(rest[:i])
+			if !strings.Contains(tn, ".") {
+				tn = pkgPrefix + "." + tn
+			}
+			c, ok := clause(l.n, strings.TrimSpace(rest[i+1:]))
+			if ok {
+				db.ParamInv[tn] = append(db.ParamInv[tn], c)
+			}
 		case strings.HasPrefix(t, "typeinv "):
 			rest := strings.TrimSpace(t[8:])
 			i := strings.Index(rest, "{")
@@ -616,7 +642,7 @@ func (db *ContractDB) loadFile(path, pkgPrefix string) {
 			if !strings.Contains(tn, ".") {
 				tn = pkgPrefix + "." + tn
 			}
-			body := strings.TrimSuffix(strings.TrimSpace(rest[i+1:]), "}")
+			body := strings.TrimSpace(strings.TrimSuffix(strings.TrimSpace(rest[i+1:]), "}"))
 			c, ok := clause(l.n, body)
 			if ok {
 				db.TypeInv[tn] = append(db.TypeInv[tn], c)
@@ -824,4 +850,37 @@ func canonModKey(k, pkg string) string {
 		n = pkg + "." + n
 	}
 	return "F:" + n
+}
+
+
+// resolveLikes copies clauses from the contract named by "like".
+func (db *ContractDB) resolveLikes() {
+	for _, c := range db.Funcs {
+		if c.Like == "" {
+			continue
+		}
+		src, ok := db.Funcs[c.Like]
+		if !ok {
+			db.Errors = append(db.Errors, fmt.Sprintf("%s: like %s: no such contract", c.Where, c.Like))
+			continue
+		}
+		c.ParamsOv = src.ParamsOv
+		c.Results = src.Results
+		c.Requires = append(append([]Clause{}, src.Requires...), c.Requires...)
+		c.Ensures = append(append([]Clause{}, src.Ensures...), c.Ensures...)
+		c.Modifies = append(append([]ModItem{}, src.Modifies...), c.Modifies...)
+		c.HasMod = c.HasMod || src.HasMod
+		c.LikePkg = contractPkgOf(c.Like)
+		c.Like = ""
+	}
+}
+
+func contractPkgOf(key string) string {
+	k := strings.TrimPrefix(key, "iface:")
+	k = strings.TrimPrefix(k, "(")
+	k = strings.TrimPrefix(k, "*")
+	if i := strings.Index(k, "."); i >= 0 {
+		return k[:i]
+	}
+	return ""
 }
